@@ -68,7 +68,8 @@ def st_case(draw, leaves, composites, depth=3, with_y=True, nmax=12, max_order=5
     nf = draw(st.integers(nfmin, nfmax))
     spec = draw(G.st_tree(nf, depth=depth, leaves=leaves, composites=composites, allow_neg=allow_neg, max_order=max_order,
                           min_order=min_order))
-    far = not (set(G.base_type(s) for s in G.all_nodes(spec)) & {"Poly", "Linear", "SingleDot"})
+    # far-apart rows are for the stationary kernels; polynomial-type factors (x.y) would only inflate magnitudes
+    far = not (set(G.base_type(s) for s in G.all_nodes(spec)) & {"Poly", "Linear", "SingleDot", "AddLLRBF"})
     X = draw(G.st_samples(nf, 2, nmax, structure=True))
     if not far:
         X = [[v if abs(v) < 5 else (v - 23.0 if v > 0 else v + 23.0) for v in r] for r in X]
@@ -78,6 +79,36 @@ def st_case(draw, leaves, composites, depth=3, with_y=True, nmax=12, max_order=5
         if draw(st.integers(0, 2)) == 0:
             Y[0] = list(X[draw(st.integers(0, len(X) - 1))])  # coincident point in X and Y
     return {"nf": nf, "kernel": spec, "X": X, "Y": Y}
+
+
+def _rounding_scale(info, nodes, pos, K):
+    """Size against which rounding-level identities of node `pos` are judged: max|K| for plain leaves, the magnitude
+    of the Newton-Girard intermediates for additive kernels, propagated through the composition rules."""
+    sub, Xs, Ys = nodes[pos]
+    t = sub["t"]
+    m = float(np.max(np.abs(K))) if np.size(K) else 0.0
+    ch = G.children(sub)
+    if t in ("Subset", "SpinSym", "PartialRBF", "PartialARBF"):
+        ch = [nodes[pos - 1][0]]
+    c = [info[id(o)] for o in ch]
+    if not ch:
+        cs = G.cond_scale(sub, np.vstack([Xs, Ys]) if Ys is not None else Xs, None)
+        rs = max(m, cs or 0.0)
+    elif t == "Sum":
+        rs = c[0][1] + c[1][1]
+    elif t == "Prod":
+        rs = c[0][1] * c[1][0] + c[1][1] * c[0][0]
+    elif t == "Exp":
+        rs = sub["n"] * c[0][0] ** (sub["n"] - 1) * c[0][1]
+    elif t == "SpinSym":
+        rs = 4 * c[0][1]
+    elif t == "SpinSymK":
+        rs = 2 * c[0][1]
+    else:
+        rs = c[0][1]
+    rs = max(rs, m, 1e-300)
+    info[id(sub)] = (m, rs)
+    return rs
 
 
 # =================================================================================================
@@ -102,17 +133,19 @@ def gram(case, ctx):
     _events(ctx, spec)
     _nontrivial(ctx, case, spec, X)
     noise_types = {"White", "DensityNoise", "ExpDensityNoise", "FittedDensityNoise"}
-    for sub, Xs, Ys in G.walk(spec, X, Y):
+    info = {}  # id(node) -> (max |K|, rounding scale): forward error model for the 1e-12 identities
+    nodes = G.walk(spec, X, Y)
+    for pos, (sub, Xs, Ys) in enumerate(nodes):
         k = G.build(sub)
         K = _matrix(ctx, G.guard(ctx, _sig("call", sub), lambda: k(Xs)), (len(Xs), len(Xs)), sub)
         _finite_or_skip(K, sub)
-        scale = float(np.max(np.abs(K))) or 1.0
+        scale = _rounding_scale(info, nodes, pos, K)
         ctx.close(K, K.T, ("symmetry", G.family(sub), G.cfg(sub)), rtol=1e-12, scale=scale, cls=G.cls_name(sub))
         KXY = _matrix(ctx, G.guard(ctx, _sig("call_xy", sub), lambda: k(Xs, Ys)), (len(Xs), len(Ys)), sub)
         KYX = _matrix(ctx, G.guard(ctx, _sig("call_xy", sub), lambda: k(Ys, Xs)), (len(Ys), len(Xs)), sub)
         _finite_or_skip(KXY, sub)
         ctx.close(KXY, KYX.T, ("cross_transpose", G.family(sub), G.cfg(sub)), rtol=1e-12,
-                  scale=max(float(np.max(np.abs(KXY))), 1e-300), cls=G.cls_name(sub))
+                  scale=max(scale, float(np.max(np.abs(KXY)))), cls=G.cls_name(sub))
         d = _matrix(ctx, G.guard(ctx, _sig("diag", sub), lambda: k.diag(Xs)), (len(Xs),), sub, "diag_shape")
         ctx.close(d, np.diag(K).copy(), ("diag", G.family(sub), G.cfg(sub)), rtol=1e-12, scale=scale, cls=G.cls_name(sub))
         if not (set(s["t"] for s in G.all_nodes(sub)) & noise_types):
@@ -314,11 +347,8 @@ def algebra(case, ctx):
                     tt += 1
             close(KY, want, "value_xy")
         if t in G.ADDITIVE:
-            nf = Xs.shape[1]
-            sc = sum(abs(float(s)) * nf**n for n, s in enumerate(sub["scale"]))
-            if t == "AddLLRBF":
-                sc *= float(1.0 + np.abs(Xs).max() * np.abs(Ys).max() / (sub["alpha"] * np.min(G._arr(sub["ls"])) ** 2)) ** sub["order"]
-            close(KY, G.additive_reference(sub, Xs, Ys), "definition", scale=sc)
+            close(KY, G.additive_reference(sub, Xs, Ys), "definition", scale=G.cond_scale(sub, Xs, Ys))
+            sc = G.cond_scale(sub, Xs, Xs)
             close(K, G.additive_reference(sub, Xs, Xs), "definition", scale=sc)
             if me["diag"] is not None:
                 close(me["diag"], np.diag(G.additive_reference(sub, Xs, Xs)).copy(), "definition_diag", scale=sc)
@@ -354,7 +384,7 @@ def st_spin(draw):
         spec = {"t": "Exp", "via": "op", "n": draw(st.integers(2, 3)), "k": leaf}
     X = draw(G.st_samples(nf, 2, 10))
     Y = draw(G.st_samples(nf, 1, 8, structure=False))
-    if leaf["base"] == "Poly":
+    if leaf["base"] in ("Poly",):
         X = [[v if abs(v) < 5 else (v - 23.0 if v > 0 else v + 23.0) for v in r_] for r_ in X]
     return {"nf": nf, "kernel": spec, "a": leaf["a"], "b": leaf["b"], "X": X, "Y": Y}
 
@@ -382,18 +412,22 @@ def spin_symmetry(case, ctx):
         ctx.nontrivial([G.describe(spec), case["a"], case["b"], len(X)])
     k = G.build(spec)
     K0 = G.guard(ctx, ("call", fam, cf), lambda: k(X, Y))
-    sc = max(float(np.max(np.abs(K0))), 1e-300)
+    # rounding scale of the whole expression (exchanging the blocks reorders the sums)
+    info, nodes = {}, G.walk(spec, X, Y)
+    for pos, (sub, Xs, Ys) in enumerate(nodes):
+        rs = _rounding_scale(info, nodes, pos, np.asarray(G.build(sub)(Xs, Ys)))
+    sc = max(float(np.max(np.abs(K0))), rs, 1e-300)
     for lab, (XX, YY) in {"swapY": (X, Y2), "swapX": (X2, Y), "swapXY": (X2, Y2)}.items():
         ctx.close(G.guard(ctx, ("call", fam, cf), lambda: k(XX, YY)), K0, ("value", fam, lab), rtol=1e-12, scale=sc)
     K1 = k(X)
-    ctx.close(k(X2), K1, ("value", fam, "swapX_none"), rtol=1e-12, scale=max(float(np.max(np.abs(K1))), 1e-300))
-    ctx.close(k.diag(X2), k.diag(X), ("diag", fam, "swapX"), rtol=1e-12, scale=max(float(np.max(np.abs(K1))), 1e-300))
+    ctx.close(k(X2), K1, ("value", fam, "swapX_none"), rtol=1e-12, scale=max(float(np.max(np.abs(K1))), sc))
+    ctx.close(k.diag(X2), k.diag(X), ("diag", fam, "swapX"), rtol=1e-12, scale=max(float(np.max(np.abs(K1))), sc))
     g1 = G.guard(ctx, ("grad", fam, G.cfg(leaf)), lambda: k(X, eval_gradient=True))[1]
     g2 = G.guard(ctx, ("grad", fam, G.cfg(leaf)), lambda: k(X2, eval_gradient=True))[1]
     if g1.size:
-        ctx.close(g2, g1, ("theta_grad", fam, "swapX"), rtol=1e-12, scale=max(float(np.max(np.abs(g1))), 1e-300))
+        ctx.close(g2, g1, ("theta_grad", fam, "swapX"), rtol=1e-12, scale=max(float(np.max(np.abs(g1))), sc))
     k0, dk0 = G.guard(ctx, ("kderiv", fam, G.cfg(leaf)), lambda: k.k_and_deriv(X, Y))
-    dsc = max(float(np.max(np.abs(dk0))), 1e-300)
+    dsc = max(float(np.max(np.abs(dk0))), sc)
     k1, dk1 = k.k_and_deriv(X, Y2)
     ctx.close(k1, k0, ("kderiv_value", fam, "swapY"), rtol=1e-12, scale=sc)
     ctx.close(dk1, dk0, ("kderiv", fam, "swapY"), rtol=1e-12, scale=dsc)
@@ -404,8 +438,8 @@ def spin_symmetry(case, ctx):
     ctx.close(sw, dk0, ("kderiv", fam, "swapX"), rtol=1e-12, scale=dsc)
     k3, dk3 = k.k_and_deriv(X)
     k4, dk4 = k.k_and_deriv(X, X2)
-    ctx.close(k4, k3, ("kderiv_value", fam, "y_none_vs_swapped"), rtol=1e-12, scale=max(float(np.max(np.abs(k3))), 1e-300))
-    ctx.close(dk4, dk3, ("kderiv", fam, "y_none_vs_swapped"), rtol=1e-12, scale=max(float(np.max(np.abs(dk3))), 1e-300))
+    ctx.close(k4, k3, ("kderiv_value", fam, "y_none_vs_swapped"), rtol=1e-12, scale=max(float(np.max(np.abs(k3))), sc))
+    ctx.close(dk4, dk3, ("kderiv", fam, "y_none_vs_swapped"), rtol=1e-12, scale=max(float(np.max(np.abs(dk3))), sc))
 
 
 # =================================================================================================
@@ -543,7 +577,8 @@ def _input_grad_node(ctx, sub, Xs, Ys):
     kk, dk = G.guard(ctx, ("k_and_deriv", fam, cf), lambda: k.k_and_deriv(Xs, Ys))
     kk, dk = np.asarray(kk), np.asarray(dk)
     _finite_or_skip(dk, sub)
-    ctx.close(kk, KY, ("value", fam, cf), rtol=1e-13, scale=max(float(np.max(np.abs(KY))), 1e-300), cls=G.cls_name(sub))
+    vs = max(float(np.max(np.abs(KY))), G.cond_scale(sub, Xs, Ys) or 0.0, 1e-300)
+    ctx.close(kk, KY, ("value", fam, cf), rtol=1e-13, scale=vs, cls=G.cls_name(sub))
     want_shape = (len(Xs), len(Ys), Xs.shape[1])
     ctx.check(np.shape(dk) == want_shape, ("gradient_shape", fam, cf), got=np.shape(dk), want=want_shape, cls=G.cls_name(sub))
     amax = float(np.max(np.abs(dk))) if dk.size else 0.0
@@ -558,7 +593,7 @@ def _input_grad_node(ctx, sub, Xs, Ys):
         fd_check_vec(ctx, f, dk[:, :, fcol], ("fd", fam, cf), h, rtol=1e-6, atol=1e-13 * amax + 1e-200,
                      feature=fcol, cls=G.cls_name(sub))
     k0, dk0 = G.guard(ctx, ("k_and_deriv_y_none", fam, cf), lambda: k.k_and_deriv(Xs))
-    ctx.close(k0, k(Xs), ("y_none_value", fam, cf), rtol=1e-13, scale=max(float(np.max(np.abs(k0))), 1e-300))
+    ctx.close(k0, k(Xs), ("y_none_value", fam, cf), rtol=1e-13, scale=max(float(np.max(np.abs(k0))), G.cond_scale(sub, Xs, Xs) or 0.0, 1e-300))
     if not any(s_["t"] == "White" for s_ in G.all_nodes(sub)):
         # (a white-noise factor is delta_ij for Y=None and zero for an explicit Y: the two calls differ by design)
         k1, dk1 = G.guard(ctx, ("k_and_deriv", fam, cf), lambda: k.k_and_deriv(Xs, Xs.copy()))
